@@ -23,7 +23,7 @@ Cfg_all == {C(TRUE, 1), C(FALSE, 1), C(FALSE, 2)}
 NS_both == {{"n1", "n2"}}
 NS_one == {{"n1"}}
 RP_two == {Prm(TRUE, 1, FALSE, 0, TRUE, {"cpu"}), Prm(TRUE, 0, FALSE, 0, FALSE, {"cpu", "mem"})}
-RP_wit == RP_quick \cup {Prm(TRUE, 2, TRUE, 1, FALSE, {"cpu"})}
+RP_wit == RP_quick \cup {Prm(TRUE, 1, TRUE, 2, FALSE, {"cpu"})}
 Cfg_nogate == {C(FALSE, 1)}
 
 Init == \E c \in Cfgs, N0 \in NodeSets : InitWith(c, N0)
@@ -32,14 +32,16 @@ ACreateR == \E r \in RNames, prm \in RParams : CreateR(r, prm)
 AUnsched == \E r \in RNames : Unsched(r)
 ASchedule == \E r \in RNames, n \in Nodes : Schedule(r, n)
 ADeleteR == \E r \in RNames : DeleteR(r)
-AAddPod == \E p \in PNames, n \in Nodes \cup {""} : \E k \in RaChoice(n) : AddPod(p, n, k)
-ABindPod == \E p \in PNames, n \in Nodes : \E k \in RaChoice(n) : BindPod(p, n, k)
+AllKeys == {""} \cup UNION {KeysOf(r) : r \in RNames}
+AAddPod == \E p \in PNames, n \in Nodes \cup {""}, k \in AllKeys : AddPod(p, n, k)      \* (AddPod guards k \in RaChoice(n))
+ABindPod == \E p \in PNames, n \in Nodes, k \in AllKeys : BindPod(p, n, k)
 ATermPod == \E p \in PNames : TermPod(p)
 ADelPod == \E p \in PNames : DelPod(p)
 ADelNode == \E n \in Nodes : DelNode(n)
 AAddNode == \E n \in Nodes : AddNode(n)
 ATick == now < MaxNow /\ Tick
-ASync == \E r \in RNames, g \in Gens, f \in BOOLEAN : g <= rgen[r] /\ Sync(r, g, f)
+DoSync(r, g, f) == g <= rgen[r] /\ Sync(r, g, f)
+ASync == \E r \in RNames, g \in Gens, f \in BOOLEAN : DoSync(r, g, f)
 AGC == \E f \in BOOLEAN : GC(f)
 ARestart == Restart
 
@@ -64,7 +66,9 @@ NeverSucceeded == \A r \in RNames : rs[r].exists => rs[r].phase # "Succeeded"
 NeverFailedByNode == \A r \in RNames : (rs[r].exists /\ rs[r].phase = "Failed") => ExpCode(rs[r], now)
 NeverCollected == step.op = "gc" => \A r \in RNames : rgen[r] = 0 \/ rs[r].exists
 NeverTwoOwners == \A r \in RNames : rs[r].exists => Cardinality(rs[r].owners) < 2
-NeverCleaned == ~(step.op = "sync" /\ step.nw > 0 /\ ~rs[step.r].exists)
-NeverFaulted == ~(step.op = "sync" /\ step.hit)
+\* (these two read the step label, which the VIEW leaves out of the state: stated on transitions)
+NeverCleaned == [][~(step'.op = "sync" /\ step'.nw > 0 /\ ~rs[step'.r].exists)]_vars
+NeverFaulted == [][~(step'.op = "sync" /\ step'.hit)]_vars
+NeverGCFault == [][~(step'.op = "gc" /\ step'.nhit > 0)]_vars
 NeverAmbiguous == \A r \in RNames : rs[r].exists => (MayExpire(rs[r], now) => MustExpire(rs[r], now))
 =============================================================================
